@@ -187,6 +187,19 @@ def primitives(ctx, spec):
         ws = calls(b, "AsyncWriteExt::write_all")
         ok = len(vs) == 1 and len(ws) == 1
         why = "%d write_varint, %d write_all" % (len(vs), len(ws))
+        if fn == "write_string" and not vs and not ws:
+            # a string is its UTF-8 bytes with a byte-length prefix: delegating to write_bytes(string.as_bytes()) — whose own shape is
+            # checked below — is the same encoding
+            wb_ = calls(b, "AsyncWritePacket::write_bytes")
+            if len(wb_) == 1:
+                d0 = arg(an, wb_[0][0], wb_[0][1], 1)
+                ok = param_name(flow.strip(d0, extra=("as_bytes",))) == param and bool(calls_in(d0, "as_bytes")) \
+                    and param_name(arg(an, wb_[0][0], wb_[0][1], 0)) in ("self",) or False
+                ok = ok and not [c for c in calls_in(d0) if flow.short(c[1]).split("::")[-1] in ("chars", "to_lowercase", "to_uppercase", "trim")]
+                ctx.check(ok, R, "C09/primitives-shape/" + fn, b.loc,
+                          reason="%s delegates to write_bytes with %s; expected the string's own bytes" % (fn, render(d0, maxdepth=3)),
+                          detail="%s = write_bytes(%s.as_bytes())" % (fn, param))
+                continue
         if ok:
             v = flow.strip(arg(an, vs[0][0], vs[0][1], 1))
             lenok = v[0] == "cast" and flow.strip(v[2])[0] == "call" and flow.short(flow.strip(v[2])[1]).endswith(lenfn) \
